@@ -16,6 +16,7 @@ type GenOpts struct {
 	UseFor    bool // FOR/ROF blocks
 	MaxForExp int  // upper bound on block instances
 	OutsideRef bool // allow references to block labels from outside the block
+	NestedLabel bool // allow a block label on a block whose body starts with a nested FOR
 	Meta      bool
 }
 
@@ -389,7 +390,16 @@ func (g *genState) genForProgram(p *Prog, allLabels []string, n int) {
 			used++
 			f := genBlock(1, 1)
 			// block label: only when the body starts with an instruction
-			if _, ok := f.Body[0].(*Instr); ok && r.Intn(3) == 0 && f.Counter != "" {
+			_, firstIsInstr := f.Body[0].(*Instr)
+			inner, firstIsFor := f.Body[0].(*For)
+			if firstIsFor && g.o.NestedLabel && f.Counter != "" && inner.Counter != "" && len(topLabels) > 0 {
+				// label on a block whose first emitted instruction comes from a nested block, referenced from there
+				l, _ := takeLabel()
+				f.Labels = []string{l}
+				if ins, ok := inner.Body[len(inner.Body)-1].(*Instr); ok {
+					ins.A.E = Ref{l}
+				}
+			} else if firstIsInstr && r.Intn(3) == 0 && f.Counter != "" {
 				if l, ok := takeLabel(); ok {
 					f.Labels = []string{l}
 					// references from inside the block
